@@ -387,6 +387,18 @@ def rayleigh_weighting(ix, R):
                 pair = {role(n.left): unparse(n.left.slice), role(n.right): unparse(n.right.slice)}
                 if 'sigma' in pair and 'mix' in pair:
                     found.append(pair)
+        # the same product written as an outer product: outer(mix, sigma) puts the first operand along axis 0
+        def role_expr(x):
+            txt = unparse(x)
+            if isinstance(x, ast.Name):
+                txt = defs.get(x.id, txt)
+            return 'sigma' if 'rayleigh_sigma_from_name' in txt else 'mix' if 'get_gas_mix_profile' in txt else None
+        for n in ast.walk(f.node):
+            if isinstance(n, ast.Call) and unparse(n.func).split('.')[-1] == 'outer' and len(n.args) == 2 and not n.keywords:
+                r0, r1 = role_expr(n.args[0]), role_expr(n.args[1])
+                if {r0, r1} == {'sigma', 'mix'}:
+                    found.append({'sigma': 'None, :' if r1 == 'sigma' else ':, None',
+                                  'mix': ':, None' if r0 == 'mix' else 'None, :'})
         ok = len(found) == 1 and found[0]['sigma'] in ('(None, slice(None, None, None))', 'None, :', '(None, :)') \
             and found[0]['mix'] in ('(slice(None, None, None), None)', ':, None', '(:, None)')
         R.check('2.ray.axes', 'SHAPE', site,
